@@ -265,12 +265,84 @@ def c10_3(c: Ctx) -> None:
             c.fail(u, f'cleanup wait on the cancelled handler task is unbounded: {U(v)[:60]}', 'a handler that ignores cancellation blocks the bus forever', node=a)
 
 
+def _cancel_worklist_design(c: Ctx, u: Unit, g, self_: str) -> bool:
+    """The same walk written with an explicit worklist instead of recursion: `todo = [self]; while todo: p = todo.pop(); for every child of p: cancel its pending results;
+    todo.append(child)`.  A child may be skipped only when it has no results at all (never picked up by a bus: nothing pending, no descendants).  Returns False when the
+    function is not written this way."""
+    from sa.cfg import search
+
+    whiles = [n for n in own_nodes(u.node) if isinstance(n, ast.While) and isinstance(n.test, ast.Name)]
+    if len(whiles) != 1:
+        return False
+    wl = whiles[0]
+    W = wl.test.id
+    inits = [n for n in own_nodes(u.node) if isinstance(n, (ast.Assign, ast.AnnAssign)) and n.value is not None and U(n.targets[0] if isinstance(n, ast.Assign) else n.target) == W]
+    if len(inits) != 1 or U(inits[0].value) not in (f'[{self_}]', f'list({self_}.event_children)', f'[*{self_}.event_children]'):
+        return False
+    pops = [n for n in ast.walk(wl) if isinstance(n, ast.Assign) and isinstance(n.value, ast.Call) and call_name(n.value) == 'pop' and U(n.value.func.value) == W and isinstance(n.targets[0], ast.Name)]
+    if len(pops) != 1:
+        return False
+    P = pops[0].targets[0].id
+    starts_with_self = U(inits[0].value) == f'[{self_}]'
+    # the loop over the children of the popped event
+    child_loops = [n for n in ast.walk(wl) if isinstance(n, ast.For) and isinstance(n.target, ast.Name) and (U(n.iter) == f'{P}.event_children' or U(n.iter).endswith('.event_children'))]
+    child_loops = [n for n in child_loops if U(n.iter) == f'{P}.event_children' or any(isinstance(o, ast.For) and U(o.iter) == f'{P}.event_results.values()' and U(n.iter) == f'{U(o.target)}.event_children'
+                                                                                   for o in q.ancestors_of(n))]
+    if len(child_loops) != 1:
+        return False
+    cl = child_loops[0]
+    ch = cl.target.id
+    head = g.nodes_of(cl, ('for',))[0]
+    c.ok(where(u, wl), f'explicit worklist `{W}` starting from {U(inits[0].value)}: every event taken off it has its children visited ({U(cl.iter)})')
+    # every child is put on the worklist unless it has no results
+    pushes = {n.id for n in g.live_nodes() if any(call_name(x) in ('append', 'extend') and isinstance(x.func, ast.Attribute) and U(x.func.value) == W and x.args and ch in U(x.args[0]) for x in q.node_calls(n))}
+
+    def allowed_skip(n, e) -> bool:
+        return n.kind == 'if' and e.label == 'true' and U(n.ast.test) == f'not {ch}.event_results'
+
+    p = search([(head, ())], is_target=lambda n, d: n is head, is_barrier=lambda n, d: n.id in pushes,
+               edge_ok=lambda n, e, d: None if (e.is_exc or (n is head and e.label != 'iter') or allowed_skip(n, e)) else d)
+    if p is None and pushes:
+        c.ok(where(u, cl), f'every child with results is put on the worklist (descendants at every depth are reached)')
+    else:
+        cond = next((s_.node.text(70) for s_ in (p or []) if s_.node.kind == 'if'), 'no push')
+        c.fail(u, f'a child can be left off the worklist: `{cond}`', 'grandchildren keep pending results after a timeout: a child whose own results are final can still have a handler that was '
+               'waiting for a grandchild with pending results', node=cl, witness=c.path(head, p) if p else [])
+    inner = [n for n in ast.walk(cl) if isinstance(n, ast.For) and n is not cl and U(n.iter) == f'{ch}.event_results.values()']
+    if inner:
+        c.ok(where(u, inner[0]), f'every result of every visited child is looked at ({U(inner[0].iter)})')
+    else:
+        c.fail(u, f'no loop over {ch}.event_results.values()', 'some pending results of a child are not cancelled', node=cl)
+    for n in ast.walk(wl):
+        if isinstance(n, (ast.Break, ast.Return)):
+            c.fail(u, f'the walk is left early: {q.stmt_text(n)}', 'not every child is visited', node=n)
+    ups = [n for n in ast.walk(wl) if isinstance(n, ast.Call) and call_name(n) == 'update' and isinstance(n.func, ast.Attribute)]
+    c.floor(len(ups), 1, 'update(error=...) calls')
+    for call in ups:
+        r = U(call.func.value)
+        atom = eq_atom(f'{r}.status', "'pending'")
+        facts = Facts(lambda a: a == atom, cg=c.cg, unit=u)
+        for n in g.nodes_of(q.stmt_of(call)):
+            p2 = q.guard_search(g, n, f"{r}.status == 'pending'", facts)
+            if p2 is None:
+                c.ok(where(u, call), f"{r}.update(error=...) only for results still 'pending'")
+            else:
+                c.fail(u, f"{r}.update(...) not guarded by {r}.status == 'pending'", 'a timeout rewrites child results that already started or finished', node=call, witness=c.path(g.entry, p2))
+        if q.kw(call, 'error') is None:
+            c.fail(u, f'{U(call)[:60]} does not record an error', 'cancelled child results do not become terminal', node=call)
+    if not starts_with_self:
+        c.note('worklist starts from the children of the event')
+    return True
+
+
 @ob('C10.4', 'SHAPE/DOM', 'event_cancel_pending_child_processing visits every child, cancels only results still pending, and recurses into every child')
 def c10_4(c: Ctx) -> None:
     u = c.unit(MOD, 'BaseEvent.event_cancel_pending_child_processing')
     g = c.cfg(u)
     self_ = u.params()[0]
     loops = [n for n in own_nodes(u.node) if isinstance(n, ast.For) and U(n.iter) == f'{self_}.event_children']
+    if not loops and _cancel_worklist_design(c, u, g, self_):
+        return
     if len(loops) != 1 or not isinstance(loops[0].target, ast.Name):
         c.fail(u, 'no loop over self.event_children', 'pending child results are not all visited')
         return
